@@ -202,6 +202,18 @@ def roundtrip_ok(objs):
 # syntactic feature inventory (vacuity report + classification of known-defect shapes)
 # ----------------------------------------------------------------------------------------------
 
+_OPEN_TYPES = {"CString", "SizedCString", "PackedGuid", "String"}
+
+
+def _arm_class(ms, snames):
+    if not ms:
+        return "E"
+    for m in ms:
+        if m["m"] != "decl" or m["type"] in _OPEN_TYPES or m["type"] in snames or m["arr"] in ("var", "endless"):
+            return "O"
+    return "F"
+
+
 def features(rec):
     """Set of feature names used by a program (TLC record shape). Purely syntactic."""
     fs = set()
@@ -266,6 +278,14 @@ def features(rec):
                     fs.add("else_" + opn)
                 if any(len(a["conds"]) > 1 for a in m["arms"]):
                     fs.add("or_" + opn)
+                # relative extents of the arms (syntactic): F = only fixed-width members, O = "open"
+                # (strings, packed guids, variable arrays, structs, nested ifs), E = empty.  The sizes a
+                # generator derives for an if depend on how the arms' extremes are ordered.
+                cls = [_arm_class(a["body"], snames) for a in m["arms"]]
+                if m["haselse"]:
+                    fs.add("arms:%s/%s/else-%s" % (cls[0], "".join(sorted(set(cls[1:]))) or "-", _arm_class(m["els"], snames)))
+                elif len(cls) > 1:
+                    fs.add("arms:%s/%s" % (cls[0], "".join(sorted(set(cls[1:])))))
                 for a in m["arms"]:
                     walk(a["body"], where, depth + 1, opn)
                 if m["haselse"]:
